@@ -156,6 +156,9 @@ func c04Scenarios() []*c04Scenario {
 		{name: "S6 UpdateMany vs DeleteMany vs ReplaceOne", setup: seed(d1, d2), threads: [][]*c04Op{{updMany("u")}, {delMany()}, {repl("r")}}, bound: -1},
 		{name: "S7 expiry pass of the real loop vs update of the expiring document", setup: ttl, threads: [][]*c04Op{{touch("k")}, {read()}}, ticker: true},
 		{name: "S8 FindOneAndUpdate vs $inc vs reader", setup: seed(d1), threads: [][]*c04Op{{foau("f")}, {inc("w", 10)}, {read()}}, bound: -1},
+		{name: "S10 ReplaceOne vs $inc vs reader", setup: seed(d1), threads: [][]*c04Op{{repl("r")}, {inc("w", 10)}, {read()}}, bound: -1},
+		{name: "S11 insert vs DeleteMany vs count", setup: seed(d1, d2), threads: [][]*c04Op{{ins("i", 5)}, {delMany()}, {count()}}, bound: -1},
+		{name: "S12 transaction (two inserts) vs UpdateMany vs reader", setup: seed(d1), threads: [][]*c04Op{{ins("a", 2), ins("b", 3)}, {updMany("u")}, {read()}}, txn: []bool{true, false, false}, bound: -1},
 		{name: "S9 two threads sharing one session transaction", setup: seed(d1), threads: [][]*c04Op{{ins("x", 2)}, {ins("y", 3)}}, txn: []bool{true, true}},
 	}
 }
